@@ -179,7 +179,9 @@ func init() {
 		gen: func(rng *rand.Rand, tier string, n int, emit func(string)) {
 			emit("6 40 3")
 			emit("20 60 2")
-			emit("25 0 3") // no WithTimeout: the ping timeout defaults to the ping interval
+			emit("25 0 3")      // no WithTimeout: the ping timeout defaults to the ping interval
+			emit("20 40 2 pub") // the application keeps publishing QoS 0 while the peer is silent: outbound traffic is no sign of life
+			emit("8 30 3 pub")
 			for i := 0; i < n; i++ {
 				emit(fmt.Sprintf("%d %d %d", 4+rng.Intn(20), 30+rng.Intn(40), 1+rng.Intn(4)))
 			}
@@ -289,6 +291,23 @@ func execKAReconn(f []string) Result {
 	sc.answerPings = false
 	silentAt := time.Now()
 	sc.mu.Unlock()
+	if len(f) > 3 && f[3] == "pub" {
+		// … while the application keeps sending: QoS 0 publishes several times per ping interval
+		stopPub := make(chan struct{})
+		defer close(stopPub)
+		go func() {
+			for i := 0; ; i++ {
+				select {
+				case <-stopPub:
+					return
+				case <-time.After(interval / 5):
+				}
+				pctx, pc := context.WithTimeout(context.Background(), 200*time.Millisecond)
+				cli.Publish(pctx, &mqtt.Message{Topic: "noise", QoS: mqtt.QoS0, Payload: []byte{byte(i)}})
+				pc()
+			}
+		}()
+	}
 	if !waitFor(func() bool { sc.mu.Lock(); defer sc.mu.Unlock(); return c0.closed }, interval+timeout+3*time.Second) {
 		r.Props = append(r.Props, viol("C13", "silent-peer-not-detected", "the connection was not closed after the peer went silent (interval %v, timeout %v)", interval, timeout))
 		r.Props = append(r.Props, viol("C09", "no-redial-after-keepalive-timeout", "a connection whose peer went silent was never closed, so the client never dialled again (interval %v, timeout %v)", interval, timeout))
